@@ -316,3 +316,18 @@ reg("C19", "c19",
     "every step.",
     "The check-then-write window inside one open is not scheduled (the code documents it as racy); main claim is about completed "
     "opens, closes and kills.", "DESIGN.md section 4, C19")
+
+reg("C18", "c18",
+    "TLA+ spec CacheConc.tla model-checked by TLC (design + three witness configurations); real concurrent runs of the cache "
+    "validated by TLC (end state against acknowledged operations)",
+    "The model splits Resolve, edit+commit and eviction at the lock boundaries of the code and TLC explores all interleavings of 3 "
+    "goroutines: with the re-check under the write lock and no eviction of instances in use every acknowledged operation is in "
+    "the stored chain, there is one instance and nobody blocks; three witness runs must produce the lost acknowledgement without "
+    "the re-check and the deadlock / lost acknowledgement when instances in use are evicted. The harness runs generated mixes "
+    "of New / Resolve / AddComment+Commit / SetTitle+Commit / Snapshot / Query from 2..16 goroutines (GOMAXPROCS 1..16, cache "
+    "sizes 1..1000, shared and private bugs, cold and warm caches) in child processes with a deadlock watchdog, and 2..8 "
+    "goroutines incrementing one persisted clock; TLC accepts a run only if nothing crashed, blocked or panicked, every "
+    "acknowledged operation is stored exactly once in a readable valid history that holds nothing unaccounted for, the cache "
+    "agrees with a rebuild, and the clock file holds the memory value.",
+    "Real schedules are sampled, not enumerated. Known finding (design): eviction of instances still held by a goroutine.",
+    "DESIGN.md section 4, C18")
